@@ -32,12 +32,6 @@ def k2(info):
     return bool(d.get("inside_slot_after_escape"))
 
 
-@signature("object_pattern_key_underscore")
-def k3(info):
-    """K3: an object pattern with a pair whose (literal) key is "_" """
-    return bool(re.search(r'\{[^{}]*"_"\s*:', info.get("input", "")))
-
-
 @signature("slot_in_parenthesised_literal")
 def k4(info):
     """K4: the failing position belongs to a diagnostic raised inside a slot of an interpolated literal that is directly
